@@ -10,9 +10,19 @@ build the result class, `regenerated()`, which files were (re)written, existence
 and contents of the outputs are compared with the extracted mirror, and the
 property itself is checked directly against a build of the same sources and
 settings into an empty directory.
+
+Part `static_cache_coverage` (every run, on /repo's current source text): every
+`type_name::<X>()` the code generator splices into the output and every field of
+`CTParserBuilder` must be recorded in the rebuild-cache string (or be on the list
+of fields the code documents as ignored); the keys of the cache string are the
+ones the mirror's `cache` record stands for.
+
+Part `test_files` (theories/C18/Insp*.v): histories over grammars whose header has
+a `test_files` key, with the lexer builder's inspector as an abstract verdict.
 """
 import concurrent.futures
 import hashlib
+import json
 import os
 import random
 import re
@@ -27,6 +37,8 @@ from vlib import core
 STALE_FIXED = True
 # False: the cache string does not record the builders' type parameter
 ST_IN_CACHE = True
+# False: the cache string does not record LexerTypesT::LexemeT (the code before /repo 9933a08)
+LX_IN_CACHE = True
 
 # True once /repo removes earlier output also when a build PANICS (StorageT not big enough: the documented refusal)
 PANIC_CLEANUP_FIXED = True
@@ -34,6 +46,10 @@ K_PANIC = "generated files of an earlier build survive a build that panics becau
 K_STALE = "stale generated file survives a build that fails with a grammar/lexer syntax error"
 K_LEXOUT = "lexer output of an earlier build survives a build that fails at the parser's conflict check"
 K_ST = "parser output not regenerated when only the builders' StorageT/LexerTypesT type parameter changes (not in the cache string)"
+K_LX = "parser output not regenerated when only LexerTypesT::LexemeT changes (type name spliced into the action wrappers, not in the cache string)"
+# live: CTLexerBuilder performs the grammar header's `test_files` check inside the parser builder's inspect_rt callback,
+# which CTParserBuilder::build_inner calls only when it regenerates
+K_TF = "test_files check skipped when the parser output is cached"
 
 WORKROOT = os.path.join(core.WORK, "c18")
 BASE_T = 1_000_000_000      # logical time t  ->  mtime BASE_T + 100 * t  (seconds, far in the past)
@@ -102,6 +118,31 @@ _g(8, 1, 0, 0, 3, _H + "%%\nE: E \"*/\" T { $1 * $3 } | T { $1 } ;\nT: T '/*' F 
 _L[4] = ("%%\n\\*/ \"*/\"\n/\\* \"/*\"\nq '\"'\np \"'\"\nb \"\\\"\n// \"//\"\n\u00e9\\{ \"\u00e9{\"\ns '*\\/'\n[ \\t\\n]+ ;\n", 1, 0)
 ODD_G, ODD_L = [7, 8], 4
 
+# grammars whose %grmtools section names test files (mode C only: CTParserBuilder alone knows no `test_files` key);
+# same language as grammars 0..3 (expressions over + * ( ) INT)
+_TFH = '%grmtools{test_files: ["*.c18in"]}\n'
+_g(40, 1, 0, 0, 0, _TFH + _G[0][0])
+_g(41, 1, 0, 0, 0, _TFH + _G[1][0])
+_g(42, 1, 0, 0, 1, _TFH + _G[2][0])
+TF_G = [40, 41, 42]
+# states of the set of files the glob matches: name -> {file: text}
+TF = {
+    0: {"a.c18in": "1+2*(3)\n"},
+    1: {"a.c18in": "1_0+2\n"},                            # edited test file: only lexer 1 knows `_`
+    2: {"a.c18in": "1+2*(3)\n", "b.c18in": "1_0\n"},      # added test file
+    3: {"a.c18in": "07\n"},                               # lexer 2 reads two INTs: parse error
+    4: {"a.c18in": "1+\n"},                               # parse error whatever the lexer
+    5: {},                                                # the glob matches no path: Err
+}
+# the inspector's verdict, worked out by hand from the texts above: test files -> lexers under which every file lexes and
+# parses (lexer 10 has no rule for `*`; lexers 20, 21 do not parse, the inspector is never reached)
+TF_ACCEPT = {0: {0, 1, 2}, 1: {1}, 2: {1}, 3: {0, 1, 10}, 4: set(), 5: set()}
+
+
+def tf_rejected():
+    return " ".join("%d:%d:%d" % (y, l, tf) for y in TF_G for l in sorted(_L) for tf in sorted(TF) if l not in TF_ACCEPT[tf])
+
+
 VALID_G = [0, 1, 2, 3, 4]
 CONF_G = [10, 11]
 WARN_G = [20, 21]
@@ -127,16 +168,29 @@ OPTS = [
     ("led", "led", ["15", "18", "21"]),
     ("lmod", "lmod", ["-", "k1", "k2"]),
     ("lci", "lci", ["-", "0", "1"]),
+    # the parser builder's type parameter: DefaultLexerTypes<StorageT> | a user-owned MyLexerTypes whose impl names
+    # LexA<StorageT> | the same type after the user changed `type LexemeT` to LexB<StorageT> (mode P only)
+    ("lt", "lt", ["-", "A", "B"]),
 ]
 OPT_NAMES = [o[0] for o in OPTS]
 LEXER_ONLY = {"lvis", "led", "lmod", "lci"}
+PARSER_ONLY = {"lt"}
 DEFAULT = {"yk": 2, "rec": 0, "vis": 0, "ed": 2, "eoc": 1, "wae": 1, "sw": 0, "ser": 0, "mod": 0, "st": 2,
-           "lvis": 0, "led": 2, "lmod": 0, "lci": 0}
+           "lvis": 0, "led": 2, "lmod": 0, "lci": 0, "lt": 0}
+
+
+def opt_in_mode(name, mode):
+    return not ((mode == "P" and name in LEXER_ONLY) or (mode == "C" and name in PARSER_ONLY))
 
 
 def settings_ints(c):
-    stc = c["st"] if ST_IN_CACHE else 0
-    return [c["yk"], c["rec"], c["vis"], c["ed"], c["eoc"], c["wae"], c["sw"], c["ser"], c["mod"], c["st"], stc,
+    # model codes: p_st = (StorageT, name of LexerTypesT): 0..2 DefaultLexerTypes<u8|u16|u32>, 3..5 MyLexerTypes with
+    # u8|u16|u32; p_lx = LexemeT: 0 the default lexeme of DefaultLexerTypes, 1 LexA, 2 LexB
+    lt = c.get("lt", 0)
+    st = c["st"] + (3 if lt else 0)
+    stc = st if ST_IN_CACHE else 0
+    lxc = lt if LX_IN_CACHE else 0
+    return [c["yk"], c["rec"], c["vis"], c["ed"], c["eoc"], c["wae"], c["sw"], c["ser"], c["mod"], st, stc, lt, lxc,
             c["lvis"], c["led"], c["lmod"], c["lci"]]
 
 
@@ -147,7 +201,7 @@ def hx(s):
 def harness_line(mode, c, ypath, yout, lpath, lout, api="build"):
     kv = ["mode=%s" % mode, "api=%s" % ("pf" if (api == "process_file" and mode == "P") else "build"), "y=%s" % hx(ypath), "yout=%s" % hx(yout), "l=%s" % hx(lpath), "lout=%s" % hx(lout)]
     for name, key, vals in OPTS:
-        if mode == "P" and name in LEXER_ONLY:
+        if not opt_in_mode(name, mode):
             continue
         kv.append("%s=%s" % (key, vals[c[name]]))
     return " ".join(kv)
@@ -160,7 +214,7 @@ def gen_history(rng, mode, maxlen):
     ops = []
     c = dict(DEFAULT)
     cur_g, cur_l = None, None
-    names = [o for o in OPT_NAMES if not (mode == "P" and o in LEXER_ONLY)]
+    names = [o for o in OPT_NAMES if opt_in_mode(o, mode)]
     while len(ops) < n:
         r = rng.random()
         if r < 0.42 or len(ops) == n - 1:
@@ -233,7 +287,7 @@ def targeted_histories():
     hs = []
     for mode in ("P", "C"):
         for name, _, vals in OPTS:
-            if mode == "P" and name in LEXER_ONLY:
+            if not opt_in_mode(name, mode):
                 continue
             for v in range(len(vals)):
                 if v != DEFAULT[name]:
@@ -242,7 +296,7 @@ def targeted_histories():
     # a cache text that is only searched for, not delimited, lets `Public` pass for `PublicCrate`)
     for mode in ("P", "C"):
         for name, _, vals in OPTS:
-            if mode == "P" and name in LEXER_ONLY:
+            if not opt_in_mode(name, mode):
                 continue
             for a in range(len(vals)):
                 for b in range(len(vals)):
@@ -267,6 +321,59 @@ def targeted_histories():
     hs.append(("C", 0, 0, [("B",), ("L", 20), ("Y", 1), ("B",), ("L", 1), ("B",)]))
     hs.append(("C", 0, 0, [("B",), ("L", 10), ("Y", 2), ("B",), ("L", 0), ("B",), ("B",)]))
     hs.append(("C", 0, 0, [("B",), ("L", 1), ("B",), ("L", 1), ("B",)]))
+    return hs
+
+
+def tf_histories(rng, nrandom):
+    """mode C, grammars with a `test_files` key.  Operations: the ones of the other histories plus ('T', tf): the set of
+    files the glob matches becomes TF[tf] (a test file edited / added / removed).  Returns (g0, l0, tf0, ops, times)."""
+    B = ("B",)
+    shapes = [
+        # audit 1: build; edit the LEXER so that the test file no longer lexes; build (clean: Err, no file)
+        (40, 1, 1, [B, ("L", 0), B, B, ("L", 1), B]),                 # ok; the edit makes `1_0` unlexable; restored
+        (40, 0, 1, [B, ("L", 1), B, ("L", 0), B, B]),                 # starts failing; lexer 1 knows `_`; lexer 0 does not
+        (40, 0, 0, [B, ("L", 2), B, ("T", 3), B, B, ("L", 0), B]),    # `07` under lexer 2: two INTs
+        (41, 1, 0, [B, ("T", 1), B, ("L", 2), B, ("T", 0), B]),       # edit a test file (fine), then the lexer
+        # edit / add / remove test files only
+        (40, 0, 0, [B, ("T", 1), B, B, ("T", 0), B]),
+        (40, 0, 0, [B, ("T", 2), B, ("T", 0), B]),                    # add a failing test file, remove it again
+        (42, 2, 0, [B, ("T", 4), B, B, ("Y", 42), B, ("T", 0), B]),   # parse error; a touch of the grammar re-runs the check
+        (40, 0, 0, [B, ("T", 5), B, ("T", 0), B]),                    # all test files removed: the glob matches nothing
+        # the check re-runs whenever the parser regenerates
+        (40, 0, 0, [B, ("T", 1), ("S", "vis", 1), B, ("T", 0), B, B]),
+        (40, 0, 0, [B, ("T", 1), ("Y", 41), B, ("T", 0), B]),
+        (40, 0, 0, [B, ("L", 2), ("T", 3), ("Y", 30), B, ("Y", 40), B]),
+        # a lexer that also lacks a token: the build panics after a parser stage that skipped the inspector
+        (40, 0, 0, [B, ("L", 10), B, ("L", 0), B]),
+        (40, 0, 3, [B, ("L", 10), B, B]),                             # `07` has no `*`: accepted, the build panics, as does a clean one
+        # a grammar without the key in between
+        (0, 0, 1, [B, ("Y", 40), B, ("L", 1), B, ("Y", 0), ("L", 0), B, B]),
+        (40, 1, 1, [B, ("L", 20), B, ("L", 0), B, ("L", 1), B]),      # lexer syntax error in between
+    ]
+    hs = [(g0, l0, tf0, ops, default_times(ops)) for (g0, l0, tf0, ops) in shapes]
+    hs.append((40, 1, 1, [B, ("L", 0), B, B], [1, 1, 2, 3]))          # the lexer edit in the tick of the outputs
+    hs.append((40, 0, 0, [B, ("T", 1), B, ("T", 0), ("Y", 41), B], [1, 1, 1, 2, 2, 2]))
+    for _ in range(nrandom):
+        n = rng.randint(4, 12)
+        g0, l0, tf0 = rng.choice(TF_G), rng.choice(VALID_L), rng.choice([0, 0, 0, 1, 3])
+        ops, c = [], dict(DEFAULT)
+        names = [o for o in OPT_NAMES if opt_in_mode(o, "C")]
+        while len(ops) < n:
+            r = rng.random()
+            if r < 0.40 or len(ops) == n - 1:
+                ops.append(B)
+            elif r < 0.58:
+                ops.append(("L", rng.choice(VALID_L + VALID_L + VALID_L + MISS_L + SYN_L[:1])))
+            elif r < 0.78:
+                ops.append(("T", rng.choice([0, 0, 1, 2, 3, 3, 4, 5])))
+            elif r < 0.90:
+                ops.append(("Y", rng.choice(TF_G + TF_G + [0, 30, 10])))
+            else:
+                name = rng.choice(names)
+                nvals = len([o for o in OPTS if o[0] == name][0][2])
+                c[name] = rng.choice([x for x in range(nvals) if x != c[name]])
+                ops.append(("S", name, c[name]))
+        hs.append((g0, l0, tf0, ops, random_times(rng, ops) if rng.random() < 0.4 else default_times(ops)))
     return hs
 
 
@@ -316,7 +423,7 @@ def process_file_histories():
     return hs
 
 
-def model_line(mode, g0, l0, ops, times):
+def model_line(mode, g0, l0, ops, times, tf0=None):
     def ysrc(g):
         _, syn, warn, conf, toks = _G[g]
         return "%d %d %d %d %d" % (g, syn, warn, conf, toks)
@@ -333,11 +440,15 @@ def model_line(mode, g0, l0, ops, times):
             parts.append("%d Y %s" % (t, ysrc(o[1])))
         elif o[0] == "L":
             parts.append("%d L %s" % (t, lsrc(o[1])))
+        elif o[0] == "T":
+            parts.append("%d T %d" % (t, o[1]))
         else:
             c[o[1]] = o[2]
             parts.append("%d S %s" % (t, " ".join(map(str, settings_ints(c)))))
-    return "%s %d | %s | %s | %s | %s" % (mode, 1 if STALE_FIXED else 0, ysrc(g0), lsrc(l0),
-                                          " ".join(map(str, settings_ints(DEFAULT))), " ; ".join(parts))
+    # last field: the inspector's verdict as a table (histories without test files: accepts everything)
+    return "%s %d %d | %s | %s | %s | %s | %s" % (mode, 1 if STALE_FIXED else 0, tf0 or 0, ysrc(g0), lsrc(l0),
+                                                " ".join(map(str, settings_ints(DEFAULT))), " ; ".join(parts),
+                                                tf_rejected() if tf0 is not None else "")
 
 
 # ---- running the real builders -----------------------------------------------
@@ -383,6 +494,8 @@ def classify(out, ypath, lpath):
         msg = bytes.fromhex(h).decode("utf-8", "replace")
         if lpath and lpath in msg:
             return "err_lsyntax"
+        if msg.lstrip().startswith("While parsing ") or "'test_files' glob" in msg:
+            return "err_inspect"
         if "conflict" in msg:
             return "err_yconflict"
         if ypath in msg and ("Unused" in msg or "[Warning]" in msg):
@@ -412,7 +525,17 @@ def set_mtime(path, t):
     os.utime(path, (BASE_T + 100 * t, BASE_T + 100 * t))
 
 
-def run_history(exe, idx, mode, g0, l0, ops, times, symlink=False, api="build", stardir=False):
+def write_test_files(src, tf):
+    for f in os.listdir(src):
+        if f.endswith(".c18in"):
+            os.unlink(os.path.join(src, f))
+    for name, text in TF[tf].items():
+        with open(os.path.join(src, name), "w") as f:
+            f.write(text)
+        set_mtime(os.path.join(src, name), 0)      # nobody reads these times
+
+
+def run_history(exe, idx, mode, g0, l0, ops, times, symlink=False, api="build", stardir=False, tf0=None):
     """replays one history; returns per-op observations.  With symlink=True the grammar and lexer paths handed to the
     builders are symbolic links (whose own timestamps never change) to the files that are edited."""
     casedir = os.path.join(WORKROOT, "h%05d" % idx)
@@ -435,6 +558,8 @@ def run_history(exe, idx, mode, g0, l0, ops, times, symlink=False, api="build", 
         f.write(_L[l0][0])
     set_mtime(ypath, 0)
     set_mtime(lpath, 0)
+    if tf0 is not None:
+        write_test_files(src, tf0)
     c = dict(DEFAULT)
     obs = []
     nclean = 0
@@ -451,6 +576,9 @@ def run_history(exe, idx, mode, g0, l0, ops, times, symlink=False, api="build", 
             obs.append(None)
         elif o[0] == "S":
             c[o[1]] = o[2]
+            obs.append(None)
+        elif o[0] == "T":
+            write_test_files(src, o[1])
             obs.append(None)
         else:
             before = {}
@@ -511,13 +639,23 @@ def st_only_diff(a, b):
     return pa[0] == pb[0] and pa[1] != pb[1]
 
 
+def describe_tf_history(g0, l0, tf0, ops):
+    w = ["grammar %d (test_files: [\"*.c18in\"]), lexer %d, test files %s" % (g0, l0, json.dumps(TF[tf0]))]
+    for o in ops:
+        w.append({"B": "build", "Y": "grammar := %s", "L": "lexer := %s", "T": "test files := %s", "S": "%s := %s"}[o[0]] % (
+            () if o[0] == "B" else (json.dumps(TF[o[1]]),) if o[0] == "T" else tuple(o[1:])))
+    return "; ".join(w)
+
+
 def run(ctx):
-    global STALE_FIXED, ST_IN_CACHE
+    global STALE_FIXED, ST_IN_CACHE, LX_IN_CACHE
     # (for trying the check against a repaired copy of the crates: C18_EXE=<harness built against it>)
     if os.environ.get("C18_STALE_FIXED"):
         STALE_FIXED = os.environ["C18_STALE_FIXED"] == "1"
     if os.environ.get("C18_ST_IN_CACHE"):
         ST_IN_CACHE = os.environ["C18_ST_IN_CACHE"] == "1"
+    if os.environ.get("C18_LX_IN_CACHE"):
+        LX_IN_CACHE = os.environ["C18_LX_IN_CACHE"] == "1"
     ctx.gate = core.proof_gate("C18")
     for _ in ctx.gate["theorems"]:
         ctx.oblige(True)
@@ -530,6 +668,247 @@ def run(ctx):
         _run(ctx, exe, mexe, rng)
     finally:
         shutil.rmtree(WORKROOT, ignore_errors=True)
+
+
+# ---- static part: what the rebuild-cache string covers --------------------------
+# fields of CTParserBuilder that rebuild_cache ignores and says so in its comments
+IGNORED_FIELDS_OK = {"grammar_src", "from_ast", "output_path", "inspect_rt", "inspect_callback", "phantom"}
+# recorded fields / type names -> the option of the histories that changes them (None: constant of a history)
+FIELD_OPTION = {"grammar_path": None, "mod_name": "mod", "recoverer": "rec", "yacckind": "yk", "error_on_conflicts": "eoc",
+                "warnings_are_errors": "wae", "show_warnings": "sw", "visibility": "vis", "rust_edition": "ed",
+                "serialisation_format": "ser"}
+TYPE_OPTION = {"StorageT": "st", "LexerTypesT": "st (and lt)", "LexerTypesT::LexemeT": "lt"}
+# the keys of cache_info the mirror's `cache` record stands for (coq/theories/C18/Model.v)
+CACHE_KEYS = {"BUILD_TIME", "DERIVED_MOD_NAME", "ENCODING_CONFIG", "GRAMMAR_PATH", "MOD_NAME", "RECOVERER", "YACC_KIND",
+              "ERROR_ON_CONFLICTS", "SHOW_WARNINGS", "WARNINGS_ARE_ERRORS", "RUST_EDITION", "STORAGE_T", "LEXER_TYPES_T",
+              "LEXEME_T", "RULE_IDS_MAP", "VISIBILITY"}
+
+
+def rust_code_only(src):
+    """comments removed, contents of string / char literals blanked (same length is not kept)"""
+    out, i, n = [], 0, len(src)
+    while i < n:
+        c = src[i]
+        if src.startswith("//", i):
+            j = src.find("\n", i)
+            i = n if j < 0 else j
+        elif src.startswith("/*", i):
+            depth, i = 1, i + 2
+            while i < n and depth:
+                if src.startswith("/*", i):
+                    depth, i = depth + 1, i + 2
+                elif src.startswith("*/", i):
+                    depth, i = depth - 1, i + 2
+                else:
+                    i += 1
+            out.append(" ")
+        elif c == "r" and re.match(r'r#*"', src[i:i + 12]) and (i == 0 or not (src[i - 1].isalnum() or src[i - 1] == "_")):
+            m = re.match(r'r(#*)"', src[i:i + 12])
+            end = src.find('"' + m.group(1), i + len(m.group(0)))
+            out.append('""')
+            i = n if end < 0 else end + 1 + len(m.group(1))
+        elif c == '"':
+            i += 1
+            while i < n and src[i] != '"':
+                i += 2 if src[i] == "\\" else 1
+            i += 1
+            out.append('""')
+        elif c == "'":
+            m = re.match(r"'(\\.[^']*|[^\\'])'", src[i:i + 12])
+            if m:
+                out.append("' '")
+                i += len(m.group(0))
+            else:
+                out.append(c)       # a lifetime
+                i += 1
+        else:
+            out.append(c)
+            i += 1
+    return "".join(out)
+
+
+def _block(code, start, open_ch="{", close_ch="}"):
+    """(index of the first `open_ch` at or after start, index just after its partner)"""
+    a = code.index(open_ch, start)
+    depth, i = 0, a
+    while i < len(code):
+        if code[i] == open_ch:
+            depth += 1
+        elif code[i] == close_ch:
+            depth -= 1
+            if depth == 0:
+                return a, i + 1
+        i += 1
+    raise ValueError("unbalanced")
+
+
+def _split_top(text, sep=","):
+    """split at `sep` outside any bracket (`->` is not a closing angle bracket)"""
+    parts, depth, cur, i = [], 0, [], 0
+    while i < len(text):
+        c = text[i]
+        if text.startswith("->", i):
+            cur.append("->")
+            i += 2
+            continue
+        if c in "([{<":
+            depth += 1
+        elif c in ")]}>":
+            depth -= 1
+        if c == sep and depth == 0:
+            parts.append("".join(cur))
+            cur = []
+        else:
+            cur.append(c)
+        i += 1
+    parts.append("".join(cur))
+    return [x.strip() for x in parts if x.strip()]
+
+
+def _type_name_args(code):
+    """[(position, X)] for every `type_name::<X>()`"""
+    res = []
+    for m in re.finditer(r"\btype_name\s*::\s*<", code):
+        depth, i = 1, m.end()
+        while i < len(code) and depth:
+            if code.startswith("->", i):
+                i += 2
+                continue
+            depth += code[i] == "<"
+            depth -= code[i] == ">"
+            i += 1
+        if re.match(r"\s*\(\s*\)", code[i:i + 8]):
+            res.append((m.start(), re.sub(r"\s+", "", code[m.end():i - 1])))
+    return res
+
+
+def _lets(body):
+    """[(position, bound name, expression)] of the `let` statements of a function body"""
+    res = []
+    for m in re.finditer(r"\blet\s+(?:mut\s+)?(\w+)\s*(?::[^=;]+)?=(?!=)", body):
+        depth, i = 0, m.end()
+        while i < len(body):
+            c = body[i]
+            if c in "([{":
+                depth += 1
+            elif c in ")]}":
+                depth -= 1
+            elif c == ";" and depth == 0:
+                break
+            i += 1
+        res.append((m.start(), m.group(1), body[m.end():i]))
+    return res
+
+
+def static_cache_coverage(ctx, path=None):
+    """The class of /repo 9933a08 (LexemeT) and 0fd20df (StorageT), decided on the source text: whatever the code generator
+    reads from the builder must be in the string the skip decision compares."""
+    path = path or os.path.join(core.REPO, "lrpar", "src", "lib", "ctbuilder.rs")
+    rel = "lrpar/src/lib/ctbuilder.rs"
+    problems = []          # (what, detail dict)
+    try:
+        code = rust_code_only(open(path, encoding="utf-8").read())
+        fa, fb = _block(code, code.index("fn rebuild_cache"))
+        body = code[fa:fb]
+        lets = _lets(body)
+        qa, qb = _block(body, body.index("let cache_info"))
+        cache_info = body[qa:qb]
+        keys = set(re.findall(r"\b([A-Z][A-Z_]*[A-Z])\s*=\s*[#\[]", cache_info))
+        spliced = set(re.findall(r"#\(?\s*#?(\w+)", cache_info))
+        tail = body[max([p for p, _, _ in lets] + [0]):]
+        tail = tail[tail.index(";") + 1:] if ";" in tail else tail
+
+        def reaches_cache(name, after):
+            """does the value bound to `name` (at position `after`) flow into cache_info and from there into the result?"""
+            reach = {name}
+            in_cache = False
+            for pos, lhs, expr in lets:
+                if pos <= after:
+                    continue
+                if any(re.search(r"(?<![\w.])%s\b" % re.escape(v), expr) for v in reach):
+                    if lhs == "cache_info":
+                        in_cache = any(v in spliced for v in reach)
+                    reach.add(lhs)
+            return in_cache and "cache_info" in reach and any(re.search(r"\b%s\b" % re.escape(v), tail) for v in reach)
+
+        # (a) type names
+        inside, outside = {}, {}
+        for pos, x in _type_name_args(code):
+            (inside if fa <= pos < fb else outside).setdefault(x, []).append(pos)
+        line_of = lambda pos: code.count("\n", 0, pos) + 1
+        for x, poss in sorted(outside.items()):
+            ok = False
+            for pos, lhs, expr in lets:
+                if re.sub(r"\s+", "", expr) == "type_name::<%s>()" % x and reaches_cache(lhs, pos - 1):
+                    ok = True
+            ctx.case("static type_name::<%s>" % x, True, {"static_cache_coverage": "type_name::<%s>() used outside rebuild_cache" % x,
+                                                          "uses": len(poss), "recorded": ok})
+            ctx.count("static_type_names_checked")
+            if not ok:
+                problems.append(("type name spliced into the generated code but not recorded in the rebuild cache",
+                                 {"type_name_argument": x, "used_outside_rebuild_cache_at_comment_stripped_lines": [line_of(p) for p in poss][:8],
+                                  "history": "build; change the builder's type parameter so that `%s` names another type while every "
+                                             "recorded name stays the same; build -> not regenerated, the old type name stays in the "
+                                             "generated code (histories: option `%s`)" % (x, TYPE_OPTION.get(x, "none: unknown to the histories"))}))
+            elif x not in TYPE_OPTION:
+                problems.append(("a type name the mirror does not know is spliced into the generated code (recorded in the cache, but "
+                                 "no history changes it: settings of coq/theories/C18/Model.v)", {"type_name_argument": x}))
+        # (b) fields of the builder
+        sa, sb = _block(code, code.index("pub struct CTParserBuilder"))
+        fields = []
+        for seg in _split_top(re.sub(r"#\s*\[[^\]]*\]", " ", code[sa + 1:sb - 1])):
+            m = re.match(r"(?:pub(?:\([^)]*\))?\s+)?(\w+)\s*:", seg)
+            if m:
+                fields.append(m.group(1))
+        dm = re.search(r"\blet\s+Self\s*\{", body)
+        da, db = _block(body, dm.start())
+        pat = {}
+        for seg in _split_top(re.sub(r"#\s*\[[^\]]*\]", " ", body[da + 1:db - 1])):
+            if seg.startswith(".."):
+                pat[".."] = "_"
+                continue
+            m = re.match(r"(?:ref\s+)?(?:mut\s+)?(\w+)\s*(?::\s*(.+))?$", seg, re.S)
+            pat[m.group(1)] = (m.group(2) or m.group(1)).strip()
+        if ".." in pat:
+            problems.append(("rebuild_cache destructures the builder with `..`: fields can be left out of the cache silently", {}))
+        for f in fields:
+            ctx.case("static field %s" % f, True, {"static_cache_coverage": "CTParserBuilder.%s" % f, "pattern": pat.get(f)})
+            ctx.count("static_builder_fields_checked")
+            b = pat.get(f)
+            hist = ("build; change `%s` on the builder (everything else unchanged); build -> not regenerated "
+                    "(histories: option `%s`)" % (f, FIELD_OPTION.get(f) or "none"))
+            if b is None:
+                if ".." not in pat:
+                    problems.append(("a field of CTParserBuilder is missing from the pattern of rebuild_cache", {"field": f}))
+                elif f not in IGNORED_FIELDS_OK:
+                    problems.append(("a field of CTParserBuilder is not recorded in the rebuild cache (hidden by `..`)", {"field": f, "history": hist}))
+            elif b == "_":
+                if f not in IGNORED_FIELDS_OK:
+                    problems.append(("a field of CTParserBuilder is ignored by rebuild_cache (`%s: _`) and is not one of the fields the "
+                                     "code documents as ignored %s" % (f, sorted(IGNORED_FIELDS_OK)), {"field": f, "history": hist}))
+            else:
+                if not reaches_cache(b, db):
+                    problems.append(("a field of CTParserBuilder is bound by rebuild_cache but does not reach cache_info", {"field": f, "history": hist}))
+                elif f not in FIELD_OPTION:
+                    problems.append(("a recorded field of CTParserBuilder that the mirror does not know (settings of "
+                                     "coq/theories/C18/Model.v): no history changes it", {"field": f}))
+        for f in sorted(set(FIELD_OPTION) - set(fields)):
+            problems.append(("a builder field the mirror's settings stand for no longer exists", {"field": f}))
+        # (c) the keys of the cache string
+        for k in sorted(CACHE_KEYS - keys):
+            problems.append(("a key of the cache string the mirror's `cache` record stands for is gone", {"key": k}))
+        ctx.coverage["static_cache_coverage"] = {
+            "file": rel, "type_name_arguments_outside_rebuild_cache": sorted(outside), "recorded_in_rebuild_cache": sorted(inside),
+            "builder_fields": fields, "ignored_by_rebuild_cache": sorted(f for f in fields if pat.get(f) == "_"),
+            "cache_keys": sorted(keys), "cache_keys_unknown_to_the_mirror": sorted(keys - CACHE_KEYS)}
+    except Exception as e:       # the source no longer has the shape this part reads
+        problems.append(("static_cache_coverage could not read %s (%s: %s)" % (rel, type(e).__name__, e), {}))
+    for what, detail in problems:
+        ctx.violation(dict(detail, part="static_cache_coverage", file=rel, what=what,
+                           theorem="C18_cache_records_all_generated_inputs / C18_type_params_recorded_cache_injective assume that "
+                                   "the recorded vector is the one of the mirror"), no_input=True)
+    ctx.oblige(not problems, "static_cache_coverage")
+    return problems
 
 
 def panic_probe(ctx, exe):
@@ -584,6 +963,7 @@ def panic_probe(ctx, exe):
 
 
 def _run(ctx, exe, mexe, rng):
+    static_cache_coverage(ctx)
     panic_probe(ctx, exe)
     hs = [h + (default_times(h[3]),) for h in targeted_histories()] + same_tick_histories()
     for _ in range(ctx.n(150, 2500)):
@@ -620,10 +1000,16 @@ def _run(ctx, exe, mexe, rng):
         ops = gen_history(arng, "P", 12)
         apis[len(hs)] = "process_file"
         hs.append(("P", g0, 0, ops, random_times(arng, ops) if arng.random() < 0.6 else default_times(ops)))
-    mlines = [model_line(m, g0, l0, ops, ts) for (m, g0, l0, ops, ts) in hs]
+    # ---- grammars with a `test_files` key (mode C): the lexer builder's inspector ----
+    tf0s = {}
+    for (g0, l0, tf0, ops, ts) in tf_histories(random.Random(len(hs) + 7 * ctx.seed), ctx.n(40, 700)):
+        tf0s[len(hs)] = tf0
+        hs.append(("C", g0, l0, ops, ts))
+    ctx.count("histories_with_test_files", len(tf0s))
+    mlines = [model_line(m, g0, l0, ops, ts, tf0s.get(i)) for i, (m, g0, l0, ops, ts) in enumerate(hs)]
     model = core.run_lines([mexe], mlines)
     with concurrent.futures.ThreadPoolExecutor(max_workers=max(2, core.NPROC)) as ex:
-        futs = [ex.submit(run_history, exe, i, m, g0, l0, ops, ts, i in symlinked, apis.get(i, "build"), i in starred)
+        futs = [ex.submit(run_history, exe, i, m, g0, l0, ops, ts, i in symlinked, apis.get(i, "build"), i in starred, tf0s.get(i))
                 for i, (m, g0, l0, ops, ts) in enumerate(hs)]
         impl = [f.result() for f in futs]
 
@@ -631,7 +1017,8 @@ def _run(ctx, exe, mexe, rng):
     # equal descriptors = equal files, different descriptors = different files)
     d2h, h2d = {}, {}
     ncorr_bad = 0
-    nprop = {"stale": 0, "lexout": 0, "st": 0, "other": 0}
+    nprop = {"stale": 0, "lexout": 0, "st": 0, "lx": 0, "test_files_skipped": 0, "other": 0}
+    tf_known = []          # histories with a build of the known class K_TF
     nbuilds = 0
     nbuilds_pf = [0]
 
@@ -648,10 +1035,15 @@ def _run(ctx, exe, mexe, rng):
         changes_between = any(ops[k][0] != "B" for k in range(builds[0], builds[-1])) if len(builds) >= 2 else False
         nontriv = len(builds) >= 2 and changes_between
         api = apis.get(i, "build")
-        canon = "%s %d %d %s %s" % (mode, g0, l0, ops, times) + (" api=process_file" if api == "process_file" else "") + (" stardir" if i in starred else "")
+        canon = "%s %d %d %s %s" % (mode, g0, l0, ops, times) + (" api=process_file" if api == "process_file" else "") + (" stardir" if i in starred else "") \
+            + (" tf0=%d" % tf0s[i] if i in tf0s else "")
         same_tick = any(times[k] == times[k - 1] for k in range(1, len(times)))
         hist_json = {"mode": mode, "entry_point": ("CTParserBuilder::%s" % api) if mode == "P" else "CTLexerBuilder::build + lrpar_config",
                      "g0": g0, "l0": l0, "ops": [list(o) for o in ops], "times": times, "model_line": ml}
+        if i in tf0s:
+            hist_json["test_files"] = {"initial": tf0s[i], "states": {str(k): v for k, v in TF.items()},
+                                       "grammar_header": _TFH.strip(), "lexers": {str(k): _L[k][0] for k in (0, 1, 2, 10)},
+                                       "inspector_accepts(test files -> lexers)": {str(k): sorted(v) for k, v in TF_ACCEPT.items()}}
         if g0 in ODD_G or i in starred:
             hist_json["grammar_text"] = _G[g0][0]
             hist_json["lexer_text"] = _L[l0][0]
@@ -694,15 +1086,32 @@ def _run(ctx, exe, mexe, rng):
                      "model": m, "raw": a["raw"][:200]}
             # ---- the property, directly on the implementation ----------------
             found = False
-            if a["res"][0] == "ok":
+            # the class of the known finding K_TF (C18_incremental_differs_only_by_skipped_inspector /
+            # C18_failed_build_no_stale_or_skipped_inspector, second disjunct): the clean build is refused by the
+            # `test_files` check, while this build kept a parser output it did not write (cache hit: inspector not asked)
+            tf_class = (i in tf0s and a["cres"][0] == "err_inspect" and a["cy"] is None and a["cl"] is None
+                        and a["y"] is not None and not a["yw"] and a["res"][0] in ("ok", "panic"))
+            if tf_class:
+                # (`found` stays False: the mirror predicts this class exactly, a difference from it is still reported)
+                nprop["test_files_skipped"] += 1
+                if not tf_known or tf_known[-1][0] != i:
+                    tf_known.append((i, "%s; build %d: %s, g.y.rs%s kept; clean build: Err(test_files check), no file" % (
+                        describe_tf_history(g0, l0, tf0s[i], ops[:k + 1]), sum(1 for o2 in ops[:k + 1] if o2[0] == "B"),
+                        "Ok" if a["res"][0] == "ok" else "panics after the parser stage", " and l.l.rs" if a["l"] is not None else "")))
+                ctx.violation(dict(where, violated="incremental build keeps generated files although the test_files check fails "
+                                                   "for the current sources; the clean build returns Err and leaves no file",
+                                   expected="Err (the test_files check) and no generated file, as in a clean build"), known_key=K_TF)
+            elif a["res"][0] == "ok":
                 if a["y"] != a["cy"] or a["l"] != a["cl"] or a["cres"][0] != "ok":
                     found = True
                     # explained by the type parameter missing from the cache string?
-                    if (not ST_IN_CACHE and a["l"] == a["cl"] and a["cres"][0] == "ok" and st_only_diff(my, mcy)
+                    if ((not ST_IN_CACHE or not LX_IN_CACHE) and a["l"] == a["cl"] and a["cres"][0] == "ok" and st_only_diff(my, mcy)
                             and bij(my, a["y"]) and bij(mcy, a["cy"])):
-                        nprop["st"] += 1
+                        which = "st" if not ST_IN_CACHE else "lx"
+                        nprop[which] += 1
                         ctx.violation(dict(where, violated="successful incremental build differs from the clean build",
-                                           expected="parser output regenerated for the new type parameter"), known_key=K_ST)
+                                           expected="parser output regenerated for the new type parameter"),
+                                      known_key=K_ST if which == "st" else K_LX)
                     else:
                         nprop["other"] += 1
                         ctx.violation(dict(where, violated="successful incremental build differs from the clean build"))
@@ -767,6 +1176,15 @@ def _run(ctx, exe, mexe, rng):
                 break
     ctx.oblige(ncorr_bad == 0, "correspondence")
     ctx.oblige(nprop["other"] == 0, "property on implementation")
+    if tf_known:
+        # the KNOWN-FINDING line carries the number of histories of this run and the first of them
+        for j, kf in enumerate(ctx.known_hits):
+            if kf.get("match") == K_TF:
+                kf = dict(kf)
+                kf["note"] = "%s (%d histories, first: %s)" % (K_TF, len(tf_known), tf_known[0][1])
+                ctx.known_hits[j] = kf
+    ctx.coverage["test_files_known_class"] = {"histories": len(tf_known), "builds": nprop["test_files_skipped"],
+                                              "first": tf_known[0][1] if tf_known else None}
     ctx.coverage["rule"] = (
         "targeted histories (build, change exactly one builder option to every other value, build, build — every option, "
         "parser-alone and combined mode; known shapes) + random histories of 3..12 operations over 12 grammar texts "
@@ -782,13 +1200,24 @@ def _run(ctx, exe, mexe, rng):
         "character (build, build again -> not regenerated; option change / edit / touch -> regenerated), also with the grammar in "
         "a directory named `src*` (path contains */); the targeted one-option and same-tick mode-P histories and extra random "
         "mode-P histories run through process_file() as well, against the same mirror (regenerated() is not observable "
-        "there); non-trivial = at least 2 builds with a change between them; distinct by history")
+        "there); the parser builder's type parameter is an option too (mode P, `lt`: DefaultLexerTypes | a user-owned MyLexerTypes with "
+        "LexemeT = LexA | the same type with LexemeT = LexB — equal type_name of LexerTypesT and StorageT, only LexemeT differs); "
+        "static_cache_coverage (on the source text of lrpar/src/lib/ctbuilder.rs, every run): every type_name::<X>() argument used "
+        "outside rebuild_cache is bound inside it and flows into cache_info and the result, every field of CTParserBuilder is bound "
+        "by the `let Self {..} = self` pattern and flows into cache_info or is one of the six fields the code documents as ignored, "
+        "no `..`, the keys of cache_info include the 16 the mirror's cache record stands for; test_files histories (mode C, three "
+        "grammars whose header says test_files: [\"*.c18in\"], six states of the matched files, lexers that accept different subsets "
+        "of them, a lexer that also lacks a token): 17 shapes (audit 1: build, lexer edit that makes a test input unlexable, build; "
+        "restoring; editing / adding / removing test files; all files removed; a regenerating change in between; same-tick edits) + "
+        "random histories with test-file edits among the other operations; the inspector's verdict is a hand-made table handed to "
+        "the mirror, every build is compared with the mirror (theories/C18/InspModel.v) and with a clean build; "
+        "non-trivial = at least 2 builds with a change between them; distinct by history")
     ctx.coverage["exhaustive"] = False
     ctx.coverage["builds_replayed"] = nbuilds
     ctx.coverage["builds_replayed_through_process_file"] = nbuilds_pf[0]
     ctx.coverage["content_classes"] = len(d2h)
     ctx.coverage["property_findings"] = nprop
-    ctx.coverage["variant"] = {"STALE_FIXED": STALE_FIXED, "ST_IN_CACHE": ST_IN_CACHE}
+    ctx.coverage["variant"] = {"STALE_FIXED": STALE_FIXED, "ST_IN_CACHE": ST_IN_CACHE, "LX_IN_CACHE": LX_IN_CACHE}
     ctx.assumptions += [
         "an edit stamps the source with a time that is not older than any existing output (equal allowed) and builds stamp "
         "what they write with the current time (clock_weak; builds strictly later than the last edit for the "
@@ -799,6 +1228,19 @@ def _run(ctx, exe, mexe, rng):
         "BUILD_TIME / lrlex build time are constant during a history (one build of lrpar/lrlex)",
         "freedom canonicalised: the serialised state table (__STABLE_DATA) of a grammar with conflicts lists the conflicts in "
         "hash-map order, which differs between any two processes (two clean builds included); it is compared as a multiset of bytes",
-        "cache_injective: theorem C18_incremental_equals_clean assumes the type parameter StorageT/LexerTypesT does not "
-        "change (it is not in the cache string: C18_cache_misses_exactly_storaget, finding)",
+        "cache_injective (hypothesis of C18_incremental_equals_clean) is met by every history of the builders as they are: both "
+        "type names the generator splices into the code are recorded (C18_type_params_recorded_cache_injective, "
+        "C18_cache_records_all_generated_inputs; that the recorded vector of /repo is the mirror's is the static part of this check)",
+        "scope of C18_incremental_equals_clean: the lexer builder's inspector (test_files check) accepts at every build "
+        "(C18_incremental_equals_clean_inspector); otherwise the known finding C18-testfiles-cached, whose class is exactly "
+        "`parser stage not regenerated and the inspector rejects` (C18_incremental_differs_only_by_skipped_inspector, "
+        "C18_failed_build_no_stale_or_skipped_inspector); the inspector's verdict is abstract in the mirror (any function of grammar "
+        "text, lexer text, settings, test files); the run instantiates it with a table worked out by hand for the texts used",
+        "operation set: an edit writes the file and stamps it with the current clock (clock_weak).  Replacing the grammar by a file "
+        "whose modification time is OLDER than the output (mv, cp -p, rsync -t, archive extraction) is not an edit in this sense "
+        "and is not generated (audit 3); grammar_ast / with_grammar_src (feature `_unstable_api`; rebuild_cache documents that it "
+        "ignores from_ast and grammar_src) are not entry points of the histories (audit 4)",
+        "the `Unused keys in header` check also runs only when the parser regenerates; its verdict changes only when the build "
+        "script switches between CTParserBuilder alone and CTLexerBuilder+lrpar_config for the same output file (not an operation "
+        "of the histories; grammars with a test_files key are replayed in combined mode only)",
     ]
